@@ -1334,3 +1334,24 @@ fn unsigned_as_usize_bits(n: u64) -> [usize; USIZE_BITS] {
     }
     bits
 }
+
+#[cfg(feature = "verif_hooks")]
+impl CircuitBuilder {
+    pub(crate) fn verif_snapshot(&self) -> crate::verif_hooks::Snapshot {
+        let mut negated: Vec<(GateIndex, GateIndex)> =
+            self.negated.iter().map(|(a, b)| (*a, *b)).collect();
+        negated.sort_unstable();
+        crate::verif_hooks::Snapshot {
+            shift: self.shift,
+            gates: self
+                .gates
+                .iter()
+                .map(|g| match g {
+                    BuilderGate::Xor(x, y) => (false, *x, *y),
+                    BuilderGate::And(x, y) => (true, *x, *y),
+                })
+                .collect(),
+            negated,
+        }
+    }
+}
